@@ -22,18 +22,19 @@ Definition mul10add (a d : N) : N := (a * 10 + d) mod two64.
 Inductive pnum := PF64 (f : b64) | PU64 (n : N) | PI64 (z : Z) | PString (s : bytes).
 
 (* POW10 table: entry i is the f64 literal 1e<i>; rustc's literal parsing is trusted to round correctly *)
-Definition pow10_tab (i : nat) : option b64 :=
-  match nth_error POW10_EXPS i with
-  | Some e => Some (rne_decimal 1 e)
-  | None => None
-  end.
+Definition pow10_tab (i : Z) : option b64 :=
+  if (i <? 0)%Z || (1000 <? i)%Z then None
+  else match nth_error POW10_EXPS (Z.to_nat i) with
+       | Some e => Some (rne_decimal 1 e)
+       | None => None
+       end.
 
 (* f64_from_parts, default build.  The loop runs at most 3 times (fuel 4 is proved sufficient). *)
 Fixpoint f64_loop (fuel : nat) (f : b64) (e : Z) : res (option b64) :=   (* None = number out of range *)
   match fuel with
   | O => OutOfFuel
   | S fu =>
-    match pow10_tab (Z.to_nat (Z.abs e)) with
+    match pow10_tab (Z.abs e) with
     | Some p =>
       if (0 <=? e)%Z then
         let f' := b64_mul f p in
